@@ -16,12 +16,21 @@ type State struct {
 	heaps map[string]string
 	base  string // suffix for lazily created heap versions
 	alloc string
+	// snaps: the state right after the most recent Lock of each mutex on this path (key: the
+	// guard declaration's key; "#last": the most recent Lock of any mutex). Snapshots carry none.
+	snaps map[string]*State
 }
 
 func (s *State) clone() *State {
 	n := &State{heaps: make(map[string]string, len(s.heaps)), base: s.base, alloc: s.alloc}
 	for k, v := range s.heaps {
 		n.heaps[k] = v
+	}
+	if s.snaps != nil {
+		n.snaps = make(map[string]*State, len(s.snaps))
+		for k, v := range s.snaps {
+			n.snaps[k] = v
+		}
 	}
 	return n
 }
@@ -118,6 +127,8 @@ type Frame struct {
 	immCells     []immCell         // assigned-once local variable cells (top-level frame)
 	// calleeBindings: captured-variable cells of the closure whose contract is being applied
 	calleeBindings []string
+	fromDefer      bool // this (inlined) activation was started by RunDefers
+	runningDefers  bool // RunDefers of this activation is being executed
 	lastLockReach string
 	csCount   map[string]int
 	noopFuncs map[string]bool
@@ -871,6 +882,44 @@ func (f *Frame) mergeStates(edges []inEdge) *State {
 			f.ctx.Fact(Implies(e.cond, Eq(n, e.st.alloc)))
 		}
 		out.alloc = n
+	}
+	// lock-time snapshots travel with the path: equal ones are kept, different ones merged
+	skeys := map[string]bool{}
+	for _, e := range edges {
+		for k := range e.st.snaps {
+			skeys[k] = true
+		}
+	}
+	var sks []string
+	for k := range skeys {
+		sks = append(sks, k)
+	}
+	sort.Strings(sks)
+	for _, k := range sks {
+		first, same := edges[0].st.snaps[k], true
+		for _, e := range edges[1:] {
+			if e.st.snaps[k] != first {
+				same = false
+			}
+		}
+		if out.snaps == nil {
+			out.snaps = map[string]*State{}
+		}
+		if same {
+			out.snaps[k] = first
+			continue
+		}
+		var sub []inEdge
+		for _, e := range edges {
+			s := e.st.snaps[k]
+			if s == nil {
+				// no lock taken on this path: the snapshot is the path's own state
+				s = e.st.clone()
+				s.snaps = nil
+			}
+			sub = append(sub, inEdge{nil, e.cond, s})
+		}
+		out.snaps[k] = f.mergeStates(sub)
 	}
 	return out
 }
